@@ -8,9 +8,9 @@ git checkout -q -- . ; rm -rf ffuzzy/tests
 git apply --check $SD/patch.diff || { echo "RESULT $NAME patch-does-not-apply"; exit 1; }
 mkdir -p ffuzzy/tests; T=$(echo $NAME | tr '-' '_'); cp $SD/demo.rs ffuzzy/tests/$T.rs
 # demo without patch
-(cd ffuzzy && cargo test --offline --release --test $T >/tmp/vs-$NAME-clean.log 2>&1); CLEAN=$?
+(cd ffuzzy && cargo test --offline --release $FEATURES --test $T >/tmp/vs-$NAME-clean.log 2>&1); CLEAN=$?
 git apply $SD/patch.diff
-(cd ffuzzy && cargo test --offline --release --test $T >/tmp/vs-$NAME-patched.log 2>&1); PATCHED=$?
+(cd ffuzzy && cargo test --offline --release $FEATURES --test $T >/tmp/vs-$NAME-patched.log 2>&1); PATCHED=$?
 rm -rf ffuzzy/tests
 SUITE=$(cargo nextest run --workspace --no-fail-fast --offline --test-threads 6 2>&1 | grep -E "tests run:" | tail -1)
 git checkout -q -- .
